@@ -120,6 +120,8 @@ def main():
             mod.replay(ctx, data)
         else:
             mod.run(ctx)
+            for b in ctx.tie_broken[:10]:
+                core.log("tie broken:", b)
             if ctx.tie_broken and not ctx.violations:
                 # the tie is broken: search harder for a failing input
                 if hasattr(mod, "search"):
